@@ -97,7 +97,10 @@ Want(r) ==
       [] r.api = "simfit" -> [data_less_sky_left_in |-> WholeFrameOn(r.img, r.k, r.h, r.w, r.kh, r.kw, SlimSeq(u, r.h, r.w))]
       [] OTHER -> << >>
 
-\* Signature of the failing input class (matches known findings).  The one class singled out: a mapping matrix
+\* Signature of the failing input class (matches known findings).  A simulate -> fit record made with an
+\* unnormalised kernel taken as it is (normalize_psf=False) whose masked dataset no longer carries the simulation's
+\* kernel (r.psf_kept false) and whose model is exactly the blur with the kernel divided by its sum r.q gets its own
+\* signature.  The other class singled out: a mapping matrix
 \* with a negative entry whose result is exactly the operator applied to the POSITIVE PART of the matrix, i.e.
 \* the negative entries were dropped.  Any other wrong result on such a matrix keeps the plain signature.
 Sig(r) ==
@@ -109,6 +112,9 @@ Sig(r) ==
          ELSE "convolve_mapping_matrix"
     ELSE IF r.api = "even" THEN "even_kernel"
     ELSE IF r.err # "" THEN r.api \o ":raised"
+    ELSE IF /\ r.api = "simfit" /\ r.norm = "raw_asis" /\ ~ r.psf_kept
+            /\ [n \in DOMAIN r.model |-> r.model[n] * r.q] = MaskedBlurOfNative(Un(r), r.k, r.h, r.w, r.kh, r.kw, r.img)
+         THEN "simfit:unnormalised-psf-renormalised-by-apply_mask"
     ELSE IF r.api \in {"whole_frame", "simfit"} /\ r.history # "fresh" THEN r.api \o ":derived-kernel"
     ELSE IF r.api = "simfit" /\ r.sky # 0 THEN "simfit:background-sky"
     ELSE r.api
